@@ -29,6 +29,11 @@ CHECKS = {
   text="Reference-model monitor: generated documents (defs in a DAG with every parameter kind, buffered/filter/decorator flags, nested defs, calls by name / via self / inside string concatenation / via capture / as arguments, calls with content in both tag styles nested to depth 3-4 with body arguments and nested defs, caller.body() invoked 0-3 times, inside % if / % for) are rendered by Mako and by an independent reference interpreter (mk/tdoc.py: explicit buffer stack, caller objects as closures of the calling scope, argument binding through inspect.signature); output or exception type must agree. A sys.settrace render-state monitor asserts on every frame of the generated module that buffer-stack depth, caller-stack depth and the pending caller at exit equal those at entry.",
   note="Trusted: the reference interpreter (rules in DESIGN.md appendix A). Not generated: capture() of buffered defs, decorators on buffered defs. One open known finding (bare '*' of a def signature is dropped; pinned by test_def_py3k_args_quirk).",
   technique="reference-interpreter differential oracle + settrace render-state invariant monitor over grammar-generated templates"),
+ "C06": dict(
+  category="exploration", design_ref="DESIGN.md §2 C06",
+  text="Reference-model monitor: inheritance chains of length 1-5 whose templates declare subsets of defs, named blocks (optionally calling parent.<block>()), anonymous blocks, module attributes and <%page args>, with bodies that call self/next/parent/local members, read .attr attributes and chain through next.body(**args), with static or dynamic <%inherit>, are rendered by Mako and by a 40-line reference resolution; every member prints <name>@<template> so the output spells the dispatch. All declared/not-declared assignments of one def, one block and one attribute over chains of length <=3 are enumerated with a probing body that calls every namespace x member; longer chains are random. Invalid block placements (duplicates, named block in def / in <%call>) must raise CompileException at construction.",
+  note="Trusted: the reference resolution in checks/c06.py. Missing members are compared by exception class only.",
+  technique="reference-model differential oracle over enumerated and random inheritance chains"),
  "C09": dict(
   category="exploration", design_ref="DESIGN.md §2 C09",
   text="Every URI of the stated segment/separator/leading alphabet (exhaustive up to 4 segments quick, 6 thorough) is looked up on real TemplateLookup objects over a fixture tree with canary files at every place a traversal could land, directly and through include/inherit/namespace/Namespace-API calls from callers at depth 0..3; a sys.addaudithook file-access monitor, the realpath of every returned Template.filename and a canary scan of the output decide containment.",
